@@ -131,6 +131,9 @@ CURATED += [
     # a literal, compressible jalr right behind a hand-written auipc (not a call / tail expansion)
     ('auipc_then_ret', ['L1:', 'auipc x10 0', 'ret', FC, 'L2:', 'j L1', 'dw L2']),
     ('auipc_then_jalr', ['auipc x6 16', 'jalr x0 x6 0', 'L1:', F4, 'auipc x1 0', 'jalr x1 x1 0', 'L2:', 'j L1', 'dw L2']),
+    # the same kind of program as text with \r\n line ends (every line kind, strings in front of labels and aligns)
+    ('crlf_strings!crlf', ['string abc', 'L1:', 'bytes 1 2', 'string d', 'align 4', 'L2:', 'dw L1', 'dw L2', FC, 'j L2', 'K9 = 3', 'addi x9 x9 K9', 'string \u00e9']),
+    ('crlf_code!crlf', ['L1:', FC, 'li x5 K0', G(0), 'beq x8 x0 L1', 'pack <h 1', 'align 2', 'L2:', 'call L1', 'dw %offset(L2)']),
     ('far_call_then_bwd_br', ['call L9', 'L1:', G(0), 'bnez x8 L1', 'j L1', G(1), 'L9:', F4]),
     ('far_tail_then_bwd_j', ['mv x8 x9', 'tail L9', 'L1:', FC, G(0), 'j L1', 'beq x9 x0 L1', G(1), 'L9:', F4]),
     ('labelref_then_regonly', ['L0:', 'bne x8 x9 L0', 'sub x8 x8 x9', 'lui x5 %hi(L0)', 'and x8 x8 x9', 'lw x12 x0 %lo(L0)', 'slli x9 x9 2', 'dw L0', 'add x8 x8 x9', 'j L0', 'ebreak']),
